@@ -120,22 +120,15 @@ func c36Prefix(rng *rand.Rand) []byte {
 	return buf
 }
 
-func hexHead(b []byte) string {
-	if len(b) > 300 {
-		return fmt.Sprintf("%x…(%d bytes)", b[:300], len(b))
-	}
-	return fmt.Sprintf("%x", b)
-}
-
 func TestVerif_C36(t *testing.T) {
 	r := verifrt.Start(t, "C36")
 	defer r.Finish()
-	r.SetRule("case = PRNG well-formed message: header bits/opcode/rcode, 0-20 (sometimes 30-150) records per section of types A AAAA NS CNAME SOA PTR MX TXT SRV SVCB HTTPS OPT unknown, absolute names of 0..n labels (1-63 bytes, any byte but '.', text <= 254) built so that suffixes repeat; 3% of messages carry a filler record that puts later names across the 14-bit pointer limit. non-trivial = Message.Pack emitted at least one compression pointer (counted in the bytes by the harness decoder). distinct = FNV-64a of the Pack() bytes")
+	r.SetRule("case = PRNG well-formed message: header bits/opcode/rcode, 0-20 (sometimes 30-150) records per section of types A AAAA NS CNAME SOA PTR MX TXT SRV SVCB HTTPS OPT unknown, absolute names of 0..n labels (1-63 bytes, any byte but '.', text <= 254) built so that suffixes repeat; 3% of messages carry a filler record that puts later names across the 14-bit pointer limit, a third of those also a record with 16384..65535 octets of RDATA. non-trivial = Message.Pack emitted at least one compression pointer (counted in the bytes by the harness decoder). distinct = FNV-64a of the Pack() bytes")
 	r.Assume("harness decoder/encoder written from RFC 1035 4.1, RFC 2782, RFC 6891, RFC 9460 2.2; message content compared through a neutral representation that ignores nil-vs-empty slices and the auto-filled ResourceHeader.Length (Length is compared with the RDLENGTH seen on the wire instead)")
 
 	// the workload allocates a lot of short-lived buffers; fewer GC cycles, same results
 	defer debug.SetGCPercent(debug.SetGCPercent(800))
-	n := r.N(8000, 600000)
+	n := r.N(6000, 250000)
 	const chunks = 64
 	r.CasesParallel("messages", chunks, 0, func(c *verifrt.Case) {
 		ev := map[string]int64{} // per-chunk event counters, flushed once
@@ -152,6 +145,7 @@ func TestVerif_C36(t *testing.T) {
 	r.Require("msgs_with_pointers", int64(n/4))
 	r.Require("names_text_len_254", 50)
 	r.Require("msgs_names_beyond_14bit_offset", 20)
+	r.Require("rdata_16k_to_65535", 10)
 	for _, k := range []string{"rr_A", "rr_AAAA", "rr_NS", "rr_CNAME", "rr_SOA", "rr_PTR", "rr_MX", "rr_TXT", "rr_SRV", "rr_SVCB", "rr_HTTPS", "rr_OPT", "rr_unknown"} {
 		r.Require(k, 200)
 	}
@@ -348,6 +342,7 @@ func c36One(c *verifrt.Case, r *verifrt.R, rng *rand.Rand, k int, ev map[string]
 	ev["labels_arbitrary_bytes"] += int64(g.rawLabels)
 	ev["txt_strings_255"] += int64(g.txt255)
 	ev["txt_strings_empty"] += int64(g.txtEmpty)
+	ev["rdata_16k_to_65535"] += int64(g.bigRData)
 	if k < 2 && c.Index == 0 && packed != nil {
 		s := m.summary()
 		s["pack_bytes"] = hexHead(packed)
